@@ -5,3 +5,4 @@ pub mod ledger;
 pub mod mon;
 pub mod refmodel;
 pub mod rng;
+pub mod sched;
